@@ -27,7 +27,8 @@ PROPS = {
         rule="values suite: exhaustive insert/get sequences over 3 names x 3 values up to length 3 (quick) / 4 "
              "(thorough), random operation sequences (insert/get/extend/collect/JSON text/serde MapDeserializer with exact size hint/"
              "iterators with every positional adapter: nth, nth_back, rev().nth, rev().skip, last, len/size_hint/count, both ends; "
-             "indexing vs get) up to 25/60 ops, strings that end in line breaks, error chains of up to 40 entries, NaNs with sign / "
+             "indexing vs get; every operation mirrored on a collection whose names are slices of shared buffers, so that a name which "
+             "is a prefix of another one starts at the same address) up to 25/60 ops, one case in forty a collection of 257..700 distinct names,  strings that end in line breaks, error chains of up to 40 entries, NaNs with sign / "
              "payload / signalling bit, typed comparisons on boundary-biased values incl. neighbouring bit patterns, signed zeros "
              "and NaNs; non-trivial = sequence that re-inserts an existing name "
              "and has >= 3 lines; distinct by input text",
@@ -193,7 +194,8 @@ MANIFEST_TEXT["C08"] = dict(
 _CAP_RULE = ("capture suite: well-formed single-threaded programs (as C01) driven directly into Registry + capture layer(s); layer "
              "filters from {none, level threshold, name predicate, target-prefix predicate}, optional global LevelFilter layer, "
              "pass-through layers in every position, 1..3 capture layers, stale follows-from targets, one case in sixty a chain of "
-             "129..170 nested spans; the whole storage is dumped "
+             "129..170 nested spans, one case in three reads the storages in mid-run (`probe`: descendants of a span walked and counted "
+             "while capturing goes on); the whole storage is dumped "
              "through the public query API and every C17 law is cross-checked on it, including equality / order of handles at every pair of "
              "positions within a storage and against a second storage (another layer's, or a second run's); for C16 one case in three "
              "applies the filters through tracing-subscriber's per-layer filtering (Layer::with_filter) next to an unfiltered layer "
@@ -223,7 +225,8 @@ _PROG_RULE = ("prog suite: well-formed single-threaded guest programs at subscri
               "non-LIFO enters; clones, drops, follows-from, records, events, repeated registrations), exhaustive programs over an "
               "11-symbol alphabet up to length 4 (quick) / 6 (thorough) and random programs up to 40 / 200 ops; each is run natively on a "
               "StrictHost, under the real TracingEventSender, and tunnelled (sender -> serde_json -> receiver -> StrictHost; one program in "
-              "six is tunnelled without serialization and then records NaN and the infinities too); "
+              "six is tunnelled without serialization and then records NaN and the infinities too; one program in eight records values "
+              "whose Debug impl itself emits an event while it is rendered - oracle-only, the model has no such values); "
               "non-trivial = >= 2 spans, >= 1 enter, >= 1 event or record and one of {explicit parent, clone, follows-from}; distinct by input text")
 PROPS["C12"] = dict(suites=[("prog", {Q: 1200, T: 30000})], rule=_PROG_RULE + "; plus 2..16 threads x 5..200 span creations through one shared sender, and the span-id counter preset near 2^32 through the cfg hook")
 MANIFEST_TEXT["C12"] = dict(
@@ -259,8 +262,12 @@ PROPS["C13"] = dict(suites=[("prog", {Q: 1200, T: 30000}), ("receiver", {Q: 900,
 PROPS["C09"] = dict(suites=[("receiver", {Q: 250, T: 5000})],
     rule="receiver suite, C09 cases: a base description (0/3/8/64 fields) and 11 variants differing in exactly one attribute (kind, level, "
          "name incl. empty, target, module path presence, file incl. Unicode, line, field added / order / one name), announced "
-         "repeatedly under fresh and reused ids across persist keep/lose/new-host/discard cycles, each used once so that the metadata "
-         "object shows; interned-string and metadata counts read through the cfg hook; non-trivial = a cut with an alive span or >= 2 "
+         "repeatedly under fresh and reused ids across persist keep/lose/new-host/discard/cold cycles (cold = all ids of the restored "
+         "metadata, equal descriptions under several ids included, are interned in one go in a process that never saw them), each used "
+         "once so that the metadata object shows, a third of the spans kept alive across re-announcements of their id; interned-string "
+         "and metadata counts read through the cfg hook and the metadata count compared with the number of distinct descriptions the "
+         "process has announced or restored; every metadata object's call-site identifier must lead back to that object; one case in "
+         "ten repeats the same small execution 100..300 times and requires the thread's live heap (counting allocator) not to grow; non-trivial = a cut with an alive span or >= 2 "
          "rounds (every case has >= 2 rounds); half of the cases run with the arena's hash degraded to a constant through the cfg hook "
          "(all descriptions in one bucket, so eq_metadata alone keeps them apart; marked descriptions, disjoint from the others); distinct by input text")
 PROPS["C10"] = dict(suites=[("arenaconc", {Q: 120, T: 2000})],
@@ -316,7 +323,10 @@ PROPS["C18"] = dict(suites=[("pred", {Q: 2000, T: 6000})],
          "with typed constants of every kind incl. 0.0 / -0.0 / NaN and value(..) views, fields named `r#type` / `type`; message incl. "
          "messages that are error values; parent, ancestor, parent(ancestor)) + all `&` / `|` combinations over a 16-atom core (depth 2) "
          "+ 160 sampled depth-3 combinations with the compound operand on either side of either operator, with and without redundant "
-         "parentheses (`a & b | c`) = 718 span and 717 event predicates, every third query picks a plain atom; targets include near "
+         "parentheses (`a & b | c`) + one-element-array forms `level([..])`, `field(.., [..])`, targets with multi-byte characters incl. a path ending inside one, two "
+         "message constants of ~390 bytes of two-byte characters (the rendered predicate exceeds 200 bytes at both parities) = 725 span "
+         "and 726 event predicates, every third query picks a plain atom; one case in 25 is a chain of 10..24 nested spans in which "
+         "only the outermost ones carry the names the ancestor atoms ask for; targets include near "
          "misses of the `::` rule (`app:db`, `app:`, `my_app` vs "
          "`my-app`), items with a string field `log.target`, 128-bit values congruent to the typed constants modulo 2^64; every query evaluates eval, find_case(true), find_case(false); scanner "
          "helpers single/first/last/all/none over all spans/events, children, events, descendants, deep events under catch_unwind; "
@@ -327,7 +337,7 @@ MANIFEST_TEXT["C18"] = dict(
          "predicates separately); reference meaning of each factory: target = path or below it at a `::` boundary; level exact / "
          "threshold / OFF matches nothing; field present and matching with strict value kinds; message; direct parent; any ancestor; "
          "and / or; scanner helpers are determined by the list of matching items (single <-> exactly one, first/last = head/last of the "
-         "matches, all, none). Model eval/hasCase mirror the code arm by arm and are tied to it by 1435 compiled predicate instances "
+         "matches, all, none). Model eval/hasCase mirror the code arm by arm and are tied to it by 1451 compiled predicate instances "
          "evaluated on real storages.",
     note=_CAP_NOTE + "Leaf predicates of the `predicates` crate (eq, lt/gt, str::starts_with) are assumed to satisfy find_case(e,x).is_some() <-> eval(x)=e; the harness checks this for every atom it uses.",
     technique="Lean 4 proof (structural induction over predicates) + differential correspondence on compiled predicate instances")
